@@ -16,6 +16,8 @@ import vlib
 from vlib import zlit
 import c01_util as U
 from c01_util import blit
+import c01_sites
+import c02_live2
 
 LEVEL = 'proof'
 META = {
@@ -803,6 +805,19 @@ def run(ctx):
             for a in combos_actions:
                 jobs.append((ver, ci, m, e, 17, a))
         results = pool.map(live_attack, jobs, chunksize=8)
+        # key epochs: two and three consecutive KeyUpdates per direction, replay across epochs, independent HKDF chain
+        ku_jobs = [(ci, 23, v) for ci in ('aes128gcm', 'aes256gcm', 'chacha20-poly1305', 'aes128ccm')
+                   for v in ('honest', 'replay-prev', 'replay-first-in-third', 'skip-keyupdate')]
+        ku_results = pool.map(c02_live2.keyupdate_case, ku_jobs)
+        # plaintext fragments injected during the handshake before every record of either flight
+        inj_combos = [((3, 0), 'aes128', 'sha', False), ((3, 1), 'aes128', 'sha', True), ((3, 2), '3des', 'sha', False),
+                      ((3, 3), 'aes128gcm', 'aead', False), ((3, 3), 'aes128', 'sha256', True), ((3, 4), 'aes128gcm', 'aead', False)]
+        if not quick:
+            inj_combos += [((3, 1), 'rc4', 'sha', False), ((3, 3), 'chacha20-poly1305', 'aead', False), ((3, 3), 'null', 'sha', False),
+                           ((3, 4), 'chacha20-poly1305', 'aead', False)]
+        inj_jobs = [(v, ci, m, e, 29, d, k, frag) for (v, ci, m, e) in inj_combos for d in 'cs' for k in range(0, 10)
+                    for frag in ('alert1', 'hs1', 'alert2')]
+        inj_results = pool.map(c02_live2.inject_case, inj_jobs, chunksize=4)
     finally:
         pool.close()
         pool.join()
@@ -826,7 +841,35 @@ def run(ctx):
                           {'args': [list(ver), ci, m, e, seed, [x if not isinstance(x, bytes) else x.hex() for x in action]],
                            'result': {k: (v.hex() if isinstance(v, bytes) else v) for k, v in r.items() if k != 'args'},
                            'how': 'harness/props/C02.py live_attack(args)'})
-    ctx.log('live attacker: %d runs' % nlive)
+    for r in ku_results:
+        if r.get('skip'):
+            continue
+        ci, seed, variant = r['args']
+        ctx.count('keyupdate-epochs', 1, [(ci, variant, r.get('outcome'))])
+        for suffix, text in r['viol']:
+            found = True
+            ctx.violation('live:%s:keyupdate:%s' % (suffix, variant), 'TLS 1.3 %s: %s' % (ci, text),
+                          {'keyupdate_args': list(r['args']), 'result': {k: v for k, v in r.items() if k != 'args'},
+                           'how': 'harness/c02_live2.py keyupdate_case(args)'})
+    ninj = 0
+    for r in inj_results:
+        if r.get('skip'):
+            continue
+        ninj += 1
+        ver, ci, m, e, seed, d, k, frag = r['args']
+        ctx.count('handshake-injection', 1, [(ver, ci, e, d, k, frag, r.get('client'), r.get('server'))])
+        for suffix, text in r['viol']:
+            found = True
+            ctx.violation('live:%s:handshake-injection:%s:%s' % (suffix, frag, 'tls13' if ver >= (3, 4) else 'legacy'),
+                          '%d.%d %s/%s etm=%s, %s-> before record %d: %s' % (ver[0], ver[1], ci, m, e, d, k, text),
+                          {'inject_args': [list(ver), ci, m, e, seed, d, k, frag], 'result': {k2: v for k2, v in r.items() if k2 != 'args'},
+                           'how': 'harness/c02_live2.py inject_case(args)'})
+    ctx.log('live attacker: %d runs, %d KeyUpdate runs, %d handshake injections' % (nlive, len(ku_results), ninj))
+    # key-change sites of /repo against the table the model (no_plaintext_survives_key_change) was written for
+    _, key_diffs = c01_sites.diff_sites(vlib.REPO)
+    ctx.count('key-change-sites', len(c01_sites.EXPECTED_KEY_SITES) + len(c01_sites.EXPECTED_GUARD_SITES), [('sites', len(key_diffs))])
+    if key_diffs:
+        tie_broken = 'read-key change sites / defragmenter guards differ from the modelled table: ' + '; '.join(key_diffs[:4])
 
     # ---------------- model vs implementation -------------------------------------------------------
     if res['model_ok']:
@@ -877,6 +920,15 @@ def replay(ctx, path):
         print('result:', {k: v2 for k, v2 in out.items() if k != 'args'})
         print('violations:', v)
         return 1 if v else 0
+    if 'keyupdate_args' in r:
+        out = c02_live2.keyupdate_case(tuple(r['keyupdate_args']))
+        print(out)
+        return 1 if out['viol'] else 0
+    if 'inject_args' in r:
+        a = r['inject_args']
+        out = c02_live2.inject_case((tuple(a[0]),) + tuple(a[1:]))
+        print(out)
+        return 1 if out['viol'] else 0
     if 'cfg' in r and 'wire' in r:
         c = r['cfg']
         for k in ('enc_key', 'mac_key', 'iv', 'fixed_nonce', 'fixed_iv'):
